@@ -24,6 +24,7 @@ import (
 	"verifharness/gen"
 	"verifharness/hmods"
 	"verifharness/mt"
+	"verifharness/seedpool"
 	"verifharness/vnet"
 )
 
@@ -80,7 +81,7 @@ type Witness struct {
 
 func buildTargets(c *fw.Ctx) []*target {
 	var out []*target
-	for _, gt := range gen.Targets() {
+	for _, gt := range seedpool.Targets(c.Seed) {
 		m, err := mt.Load(gt.Matcher, gt.Config)
 		if err != nil {
 			c.Violation("C04 config rejected "+gt.Name(), err.Error(), gt.Config)
@@ -197,6 +198,9 @@ func run(c *fw.Ctx) {
 	var ms runtime.MemStats
 	for ti, t := range targets {
 		n := perTarget
+		if strings.Contains(t.name, "/c14#") {
+			n = c.Pick(4000, 100000) // many configurations per matcher come from the C14 generators
+		}
 		if t.slow {
 			n = c.Pick(300, 5000)
 		}
